@@ -13,6 +13,7 @@ DEFAULT_SKIP = {
     'extreme_duration': True,       # F3 signed overflow in vbi_proxyd_channel_timer_update with min_duration near INT64_MIN/MAX
     'strict_oob': True,             # F4 SERVICE_REQ strict is not clamped
     'unheld_return': True,          # F5 NOTIFY(TOKEN) from a client that does not hold the token -> assert in get_token_owner
+    'thread_start_race': True,      # F9 acquisition thread runs before max_lines is set when the first frame arrives at once
     'dyn_params': True,             # F6/F7 device line counts that follow the services (assert line_count < max_lines; idx < max_lines)
 }
 
@@ -30,8 +31,10 @@ def services(rng, allow_unsupported=True):
     return s
 
 
-def strictness(rng):
-    return rng.choice([-1, 0, 0, 1, 1, 2, 2, rng.choice([-5, 3, 100, -128])]) if rng.random() < 0.15 else rng.choice([-1, 0, 1, 2])
+def strictness(rng, oob=True):
+    if oob and rng.random() < 0.12:
+        return rng.choice([-5, -2, 3, 7, 100, 127, -128])
+    return rng.choice([-1, 0, 1, 2])
 
 
 def common(rng, pid, skip, allow_tsan=True):
@@ -41,6 +44,11 @@ def common(rng, pid, skip, allow_tsan=True):
     if variant == 'thread' and allow_tsan and rng.random() < 0.3:
         c['tsan'] = True
         c['period_us'] = rng.choice([5000, 6000, 8000])
+    if variant == 'thread' and rng.random() < 0.15:
+        if skip.get('thread_start_race'):
+            c['_excluded'] = c.get('_excluded', 0) + 1
+        else:
+            c['startup_us'] = 0
     if rng.random() < 0.3:
         if skip.get('dyn_params'):
             c['_excluded'] = c.get('_excluded', 0) + 1
@@ -50,9 +58,22 @@ def common(rng, pid, skip, allow_tsan=True):
 
 
 # ---------------------------------------------------------------------------------------------------------------
+def thread_period(case, n):
+    """In the thread variant frames are produced while the main thread is busy or descheduled; the frame period is chosen
+    so that the daemon's queue (buffers + clients) covers >= 120 ms (240 ms under TSan) of that, which real hardware
+    (40 ms per frame, >= 9 buffers) gives it as well.  Otherwise machine load shows up as lost frames."""
+    if case['variant'] == 'thread':
+        depth = (case.get('buffers') or 8) + n
+        need = (240000 if case.get('tsan') else 120000) // depth
+        case['period_us'] = max(case['period_us'], need)
+
+
 def gen_c18(rng, tier, skip):
     case = common(rng, 'C18', skip)
     n = rng.choice([1, 2, 2, 2, 3, 3, 3, 4, 4, 5, 6])
+    if case['variant'] == 'thread' and (case.get('buffers') or 8) < 8 and rng.random() < 0.7:
+        case['buffers'] = rng.choice([8, 16, 32])
+    thread_period(case, n)
     per = case['period_us'] / 1000.0
     budget = 1400 if tier == 'quick' else 2600
     clients = []
@@ -73,6 +94,7 @@ def gen_c18(rng, tier, skip):
                 connected = True
             elif r < 0.35:
                 k = rng.choice([1, 3, 10, 25, 60, 150])
+                k = max(1, min(k, int(600 / per)))
                 ops.append(['R', k])
                 dur += k * per
             elif r < 0.55:
@@ -86,7 +108,11 @@ def gen_c18(rng, tier, skip):
                 ops.append(['S', ms])
                 dur += ms
             elif r < 0.9:
-                ops.append(['U', services(rng), strictness(rng), rng.choice([0, 0, 1])])
+                st = strictness(rng)
+                if not -1 <= st <= 2 and skip.get('strict_oob'):
+                    case['_excluded'] = case.get('_excluded', 0) + 1
+                    st = max(-1, min(2, st))
+                ops.append(['U', services(rng), st, rng.choice([0, 0, 1])])
                 dur += 10
             else:
                 ops.append(['D'])
@@ -386,6 +412,9 @@ def gen_c19(rng, tier, skip, msgb):
     case = common(rng, 'C19', skip, allow_tsan=False)
     fz = Fuzz(rng, msgb, skip)
     total = rng.choice([900, 1300, 1800]) if tier == 'quick' else rng.choice([1300, 2200, 3200])
+    if case['variant'] == 'thread' and (case.get('buffers') or 8) < 8:
+        case['buffers'] = rng.choice([8, 16, 32])
+    thread_period(case, 4)
     token_case = rng.random() < 0.4
     clients = []
     for i in range(rng.choice([1, 1, 2])):
